@@ -170,7 +170,16 @@ def round_trips(ctx, repo):
                 builders.add((c.short, nm))
     covered = {(c, b) for c, b, *_ in table} | {("GeckoConfigFileProtocolHandler", "response")}  # FILES: R6, all 895 combos
     for b in sorted(builders - covered):
-        ctx.ob("R2", f"{b[0]}.{b[1]}::in-table", False, f"builder {b[0]}.{b[1]} is not covered by the round-trip table (new message kind: add it to the analysis)", repo.method(*b).loc)
+        # a builder that only delegates to covered builders of its own class emits messages of a covered kind
+        bm = repo.method(*b)
+        rets = [x.value for x in ast.walk(bm.node) if isinstance(x, ast.Return)]
+        def _delegates(v):
+            return isinstance(v, ast.Call) and isinstance(v.func, ast.Attribute) and (b[0], v.func.attr) in covered and \
+                (ast.unparse(v.func.value) in (b[0], "cls") or ast.unparse(v.func.value).endswith(b[0]))
+        if rets and all(_delegates(v) for v in rets):
+            ctx.count(f"R2:delegating_builder:{b[0]}.{b[1]}", 1)
+            continue
+        ctx.error(f"builder {b[0]}.{b[1]} is not covered by the round-trip table and does not simply delegate to a covered builder (new message kind: the analysis must be extended before C04 can be decided)")
     ctx.floor("R2", "message builders", len(builders), 24)
 
     socks = {}
